@@ -12,6 +12,7 @@ import Driver.Alloc
 import Driver.C07
 import Driver.C08
 import Driver.C08mc
+import Driver.Wire
 
 open Driver
 
@@ -38,6 +39,7 @@ def main (args : List String) : IO Unit :=
   | ["shutdown01"] => runLoop (RootSim.Shutdown.St.init 1) (shutdownStep { closeFix := false, zeroFix := true })
   | ["shutdown11"] => runLoop (RootSim.Shutdown.St.init 1) (shutdownStep { closeFix := true, zeroFix := true })
   | ["shutdownmc"] => runLoop () (fun st toks => (st, shutdownMc toks))
+  | ["wire"] => runLoop () (fun st toks => (st, wirecmd toks))
   | ["heap"] => runLoop ({} : HeapSt) heapStep
   | ["par"] => runLoop ({} : Driver.Run.Sys) Driver.Run.parStep
   | ["seq"] => runLoop ({} : Driver.Run.SeqSys) Driver.Run.seqStep
